@@ -661,10 +661,6 @@ package main
 //@   noinline
 //@ func (*MyName).isMyMessage
 //@   noinline
-//@ func (*Proxy).addVia
-//@   noinline
-//@ func (*Proxy).addRecordRoute
-//@   noinline
 
 // ---- received / rport stamping (C07) ----
 
@@ -719,3 +715,178 @@ package main
 //@     invariant 0 <= $i && $i <= len(config.Listens) && len(npiRS) == len(old(npiRS)) + $i && len(npRS) == len(old(npRS)) + $i
 //@     invariant forall k int :: len(old(npiRS)) <= k && k < len(npiRS) ==> npiRS[k] == !config.Listens[k - len(old(npiRS))].NoReceived
 //@     invariant forall k int :: len(old(npRS)) <= k && k < len(npRS) ==> npRS[k] == !config.Listens[k - len(old(npRS))].NoReceived
+
+// ---- inserting the proxy itself: fresh top Via, Record-Route by policy (C06) ----
+
+//@ func CreateBranch
+//@   props C06
+//@   ensures ok: result1 == nil ==> len(uuidDraws) == len(old(uuidDraws)) + 1 && result == "z9hG4bK" + lastSeg(uuidString(uuidDraws[len(old(uuidDraws))]), "-")
+//@   ensures cookie: result1 == nil ==> hasPrefix(result, "z9hG4bK")
+//@   ensures failed: result1 != nil ==> uuidDraws == old(uuidDraws)
+
+//@ func (*Message).AddVia
+//@   props C06
+//@   requires via != nil
+//@   modifies m.headers
+//@   ensures inserted: old(firstIdx(m.headers, "Via")) >= 0 ==>
+//@        len(m.headers) == len(old(m.headers)) + 1 && m.headers[:old(firstIdx(m.headers, "Via"))] == old(m.headers)[:old(firstIdx(m.headers, "Via"))]
+//@        && m.headers[old(firstIdx(m.headers, "Via"))+1:] == old(m.headers)[old(firstIdx(m.headers, "Via")):]
+//@        && fresh(m.headers[old(firstIdx(m.headers, "Via"))]) && m.headers[old(firstIdx(m.headers, "Via"))].name == "Via" && m.headers[old(firstIdx(m.headers, "Via"))].value == anyRef("*Via", via)
+//@   ensures inserted-first: old(firstIdx(m.headers, "Via")) < 0 ==>
+//@        len(m.headers) == len(old(m.headers)) + 1 && m.headers[1:] == old(m.headers) && fresh(m.headers[0]) && m.headers[0].name == "Via" && m.headers[0].value == anyRef("*Via", via)
+
+//@ func (*Proxy).addVia
+//@   props C06
+//@   event addvias: msg
+//@   event addviaT: transport
+//@   requires msg != nil && transport != nil
+//@   modifies msg.headers, uuidDraws
+//@   ensures failed: err != nil ==> msg.headers == old(msg.headers) && result == nil
+//@   ensures pushed: err == nil ==> result != nil && fresh(result) && len(msg.headers) == len(old(msg.headers)) + 1
+//@        && (old(firstIdx(msg.headers, "Via")) >= 0 ==> msg.headers[:old(firstIdx(msg.headers, "Via"))] == old(msg.headers)[:old(firstIdx(msg.headers, "Via"))]
+//@              && msg.headers[old(firstIdx(msg.headers, "Via"))+1:] == old(msg.headers)[old(firstIdx(msg.headers, "Via")):]
+//@              && fresh(msg.headers[old(firstIdx(msg.headers, "Via"))]) && msg.headers[old(firstIdx(msg.headers, "Via"))].name == "Via" && msg.headers[old(firstIdx(msg.headers, "Via"))].value == anyRef("*Via", result))
+//@        && (old(firstIdx(msg.headers, "Via")) < 0 ==> msg.headers[1:] == old(msg.headers) && fresh(msg.headers[0]) && msg.headers[0].name == "Via" && msg.headers[0].value == anyRef("*Via", result))
+//@   ensures one-entry: err == nil ==> len(result.params) == 1 && fresh(result.params[0])
+//@        && result.params[0].ProtocolName == "SIP" && result.params[0].ProtocolVersion == "2.0"
+//@        && result.params[0].Transport == stProto(transport) && result.params[0].Host == stAddr(transport) && result.params[0].port == stPort(transport)
+//@   ensures fresh-branch: err == nil ==> len(result.params[0].Params) == 1 && result.params[0].Params[0].Key == "branch"
+//@        && len(uuidDraws) == len(old(uuidDraws)) + 1
+//@        && result.params[0].Params[0].Value == "z9hG4bK" + lastSeg(uuidString(uuidDraws[len(old(uuidDraws))]), "-")
+//@        && hasPrefix(result.params[0].Params[0].Value, "z9hG4bK")
+
+//@ func (*Message).findRecordRoutePos
+//@   props C06
+//@   modifies nothing
+//@   ensures result == rrPos(m.headers)
+
+//@ func (*Message).AddRecordRoute
+//@   props C06
+//@   requires recordRoute != nil
+//@   modifies m.headers
+//@   ensures inserted: len(m.headers) == len(old(m.headers)) + 1 && m.headers[:old(rrPos(m.headers))] == old(m.headers)[:old(rrPos(m.headers))]
+//@        && m.headers[old(rrPos(m.headers))+1:] == old(m.headers)[old(rrPos(m.headers)):]
+//@        && fresh(m.headers[old(rrPos(m.headers))]) && m.headers[old(rrPos(m.headers))].name == "Record-Route" && m.headers[old(rrPos(m.headers))].value == anyRef("*RecordRoute", recordRoute)
+
+//@ func (*Proxy).addRecordRoute
+//@   props C06
+//@   event addrrs: msg
+//@   event addrrT: transport
+//@   requires msg != nil && transport != nil
+//@   modifies msg.headers
+//@   ensures policy-none: old(firstIdx(msg.headers, "Record-Route")) < 0 && !p.mustRecordRoute ==> msg.headers == old(msg.headers)
+//@   ensures policy-add: old(firstIdx(msg.headers, "Record-Route")) >= 0 || p.mustRecordRoute ==>
+//@        len(msg.headers) == len(old(msg.headers)) + 1 && msg.headers[:old(rrPos(msg.headers))] == old(msg.headers)[:old(rrPos(msg.headers))]
+//@        && msg.headers[old(rrPos(msg.headers))+1:] == old(msg.headers)[old(rrPos(msg.headers)):]
+//@        && fresh(msg.headers[old(rrPos(msg.headers))]) && msg.headers[old(rrPos(msg.headers))].name == "Record-Route"
+//@        && isType(msg.headers[old(rrPos(msg.headers))].value, "*RecordRoute") && fresh(asRef(msg.headers[old(rrPos(msg.headers))].value, "*RecordRoute"))
+//@   ensures entry: old(firstIdx(msg.headers, "Record-Route")) >= 0 || p.mustRecordRoute ==>
+//@        len(asRef(msg.headers[old(rrPos(msg.headers))].value, "*RecordRoute").recRoute) == 1
+//@        && len(asRef(msg.headers[old(rrPos(msg.headers))].value, "*RecordRoute").recRoute[0].rrParam) == 0
+//@        && asRef(msg.headers[old(rrPos(msg.headers))].value, "*RecordRoute").recRoute[0].nameAddr.DisplayName == ""
+//@        && asRef(msg.headers[old(rrPos(msg.headers))].value, "*RecordRoute").recRoute[0].nameAddr.Addr.absoluteURI == nil
+//@        && asRef(msg.headers[old(rrPos(msg.headers))].value, "*RecordRoute").recRoute[0].nameAddr.Addr.sipURI.Scheme == "sip"
+//@        && asRef(msg.headers[old(rrPos(msg.headers))].value, "*RecordRoute").recRoute[0].nameAddr.Addr.sipURI.User == ""
+//@        && asRef(msg.headers[old(rrPos(msg.headers))].value, "*RecordRoute").recRoute[0].nameAddr.Addr.sipURI.Host == stAddr(transport)
+//@        && asRef(msg.headers[old(rrPos(msg.headers))].value, "*RecordRoute").recRoute[0].nameAddr.Addr.sipURI.port == stPort(transport)
+//@        && len(asRef(msg.headers[old(rrPos(msg.headers))].value, "*RecordRoute").recRoute[0].nameAddr.Addr.sipURI.Parameters) == 1
+//@        && asRef(msg.headers[old(rrPos(msg.headers))].value, "*RecordRoute").recRoute[0].nameAddr.Addr.sipURI.Parameters[0].Key == "lr"
+//@        && asRef(msg.headers[old(rrPos(msg.headers))].value, "*RecordRoute").recRoute[0].nameAddr.Addr.sipURI.Parameters[0].Value == ""
+//@        && len(asRef(msg.headers[old(rrPos(msg.headers))].value, "*RecordRoute").recRoute[0].nameAddr.Addr.sipURI.Headers) == 0
+
+// ---- Route handling (C13) ----
+
+//@ func (*SIPURI).GetParameter
+//@   props C13 C03
+//@   modifies nothing
+//@   ensures found: kvHas(s.Parameters, name) ==> err == nil && result == kvGet(s.Parameters, name)
+//@   ensures notfound: !kvHas(s.Parameters, name) ==> err != nil
+//@   loop 0:
+//@     invariant 0 <= $i && $i <= len(s.Parameters)
+//@     invariant forall j int :: 0 <= j && j < $i ==> s.Parameters[j].Key != name
+
+//@ func (*SIPURI).GetTransport
+//@   props C13 C03
+//@   modifies nothing
+//@   ensures result == sipTransport(s)
+
+//@ func (*SIPURI).GetPort
+//@   props C13 C03
+//@   modifies nothing
+//@   ensures result == sipPort(s)
+
+//@ func (*PreConfigHostResolver).GetIp
+//@   props C13
+//@   modifies nothing
+//@   ensures literal: len(parseIP(name)) != 0 ==> err == nil && result == name
+//@   ensures table: knownHost(hr.hostIPs, name) ==> err == nil && result == knownIp(hr.hostIPs, name)
+
+//@ func (*Proxy).isSameAddress
+//@   props C13
+//@   requires p.resolver != nil
+//@   modifies nothing
+//@   ensures same-text: addr1 == addr2 ==> result
+//@   ensures known: addr1 != addr2 && knownHost(p.resolver.hostIPs, addr1) && knownHost(p.resolver.hostIPs, addr2) ==> result == (knownIp(p.resolver.hostIPs, addr1) == knownIp(p.resolver.hostIPs, addr2))
+
+//@ func (*Message).PopRoute
+//@   props C13
+//@   event poproutes: m
+//@   modifies Header.value, m.headers, Route.routeParams
+//@   ensures none: old(firstIdx(m.headers, "Route")) < 0 ==> result != nil
+//@   ensures failed-list: result != nil ==> m.headers == old(m.headers)
+//@   ensures failed-values: result != nil ==> (forall h *Header :: h.value == old(h.value))
+//@   ensures failed-routes: result != nil ==> (forall r *Route :: old(allocated(r)) ==> r.routeParams == old(r.routeParams))
+//@   ensures typed-ok: old(firstIdx(m.headers, "Route")) >= 0 && isType(old(m.headers[firstIdx(m.headers, "Route")].value), "*Route") ==> result == nil && (forall h *Header :: h.value == old(h.value))
+//@   ensures typed-shrink: old(firstIdx(m.headers, "Route")) >= 0 && isType(old(m.headers[firstIdx(m.headers, "Route")].value), "*Route") && len(old(asRef(m.headers[firstIdx(m.headers, "Route")].value, "*Route").routeParams)) > 1 ==>
+//@        m.headers == old(m.headers)
+//@        && asRef(old(m.headers[firstIdx(m.headers, "Route")].value), "*Route").routeParams == old(asRef(m.headers[firstIdx(m.headers, "Route")].value, "*Route").routeParams)[1:]
+//@   ensures typed-remove: old(firstIdx(m.headers, "Route")) >= 0 && isType(old(m.headers[firstIdx(m.headers, "Route")].value), "*Route") && len(old(asRef(m.headers[firstIdx(m.headers, "Route")].value, "*Route").routeParams)) <= 1 ==>
+//@        m.headers == old(m.headers)[:old(firstIdx(m.headers, "Route"))] ++ old(m.headers)[old(firstIdx(m.headers, "Route"))+1:]
+//@   ensures others-untouched: forall h *Header :: old(firstIdx(m.headers, "Route")) < 0 || h != old(m.headers)[old(firstIdx(m.headers, "Route"))] ==> h.value == old(h.value)
+//@   ensures other-routes-untouched: forall r *Route :: old(allocated(r)) && (old(firstIdx(m.headers, "Route")) < 0 || anyRef("*Route", r) != old(m.headers[firstIdx(m.headers, "Route")].value)) ==> r.routeParams == old(r.routeParams)
+
+// The clauses below describe the case where the first Route header is already decoded; a textual header is
+// first decoded in place (GetRoute) and then follows the same code path, on which the same obligations are proved.
+//@ func (*Proxy).tryRemoveTopRoute
+//@   props C13
+//@   requires rawMessage != nil && rawMessage.Message != nil && rawMessage.From != nil && p.resolver != nil
+//@   ensures at-most-one: len(poproutes) <= len(old(poproutes)) + 1 && len(poproutes) >= len(old(poproutes))
+//@   ensures no-route: old(firstIdx(rawMessage.Message.headers, "Route")) < 0 ==> poproutes == old(poproutes)
+//@   ensures popped-is-message: len(poproutes) == len(old(poproutes)) + 1 ==> poproutes[len(old(poproutes))] == rawMessage.Message
+//@   ensures not-sip-not-consumed: old(firstIdx(rawMessage.Message.headers, "Route")) >= 0 && isType(old(rawMessage.Message.headers[firstIdx(rawMessage.Message.headers, "Route")].value), "*Route")
+//@        && len(old(asRef(rawMessage.Message.headers[firstIdx(rawMessage.Message.headers, "Route")].value, "*Route").routeParams)) >= 1
+//@        && old(asRef(rawMessage.Message.headers[firstIdx(rawMessage.Message.headers, "Route")].value, "*Route").routeParams[0].nameAddr.Addr.sipURI) == nil ==> poproutes == old(poproutes)
+//@   ensures wrong-port-not-consumed: old(firstIdx(rawMessage.Message.headers, "Route")) >= 0 && isType(old(rawMessage.Message.headers[firstIdx(rawMessage.Message.headers, "Route")].value), "*Route")
+//@        && len(old(asRef(rawMessage.Message.headers[firstIdx(rawMessage.Message.headers, "Route")].value, "*Route").routeParams)) >= 1
+//@        && old(asRef(rawMessage.Message.headers[firstIdx(rawMessage.Message.headers, "Route")].value, "*Route").routeParams[0].nameAddr.Addr.sipURI) != nil
+//@        && old(sipPort(asRef(rawMessage.Message.headers[firstIdx(rawMessage.Message.headers, "Route")].value, "*Route").routeParams[0].nameAddr.Addr.sipURI)) != stPort(rawMessage.From) ==> poproutes == old(poproutes)
+//@   ensures own-address-consumed: old(firstIdx(rawMessage.Message.headers, "Route")) >= 0 && isType(old(rawMessage.Message.headers[firstIdx(rawMessage.Message.headers, "Route")].value), "*Route")
+//@        && len(old(asRef(rawMessage.Message.headers[firstIdx(rawMessage.Message.headers, "Route")].value, "*Route").routeParams)) >= 1
+//@        && old(asRef(rawMessage.Message.headers[firstIdx(rawMessage.Message.headers, "Route")].value, "*Route").routeParams[0].nameAddr.Addr.sipURI) != nil
+//@        && old(sipPort(asRef(rawMessage.Message.headers[firstIdx(rawMessage.Message.headers, "Route")].value, "*Route").routeParams[0].nameAddr.Addr.sipURI)) == stPort(rawMessage.From)
+//@        && old(asRef(rawMessage.Message.headers[firstIdx(rawMessage.Message.headers, "Route")].value, "*Route").routeParams[0].nameAddr.Addr.sipURI.Host) == stAddr(rawMessage.From) ==> len(poproutes) == len(old(poproutes)) + 1
+//@   ensures alias-decides: old(firstIdx(rawMessage.Message.headers, "Route")) >= 0 && isType(old(rawMessage.Message.headers[firstIdx(rawMessage.Message.headers, "Route")].value), "*Route")
+//@        && len(old(asRef(rawMessage.Message.headers[firstIdx(rawMessage.Message.headers, "Route")].value, "*Route").routeParams)) >= 1
+//@        && old(asRef(rawMessage.Message.headers[firstIdx(rawMessage.Message.headers, "Route")].value, "*Route").routeParams[0].nameAddr.Addr.sipURI) != nil
+//@        && old(sipPort(asRef(rawMessage.Message.headers[firstIdx(rawMessage.Message.headers, "Route")].value, "*Route").routeParams[0].nameAddr.Addr.sipURI)) == stPort(rawMessage.From)
+//@        && old(asRef(rawMessage.Message.headers[firstIdx(rawMessage.Message.headers, "Route")].value, "*Route").routeParams[0].nameAddr.Addr.sipURI.Host) != stAddr(rawMessage.From)
+//@        && knownHost(p.resolver.hostIPs, old(asRef(rawMessage.Message.headers[firstIdx(rawMessage.Message.headers, "Route")].value, "*Route").routeParams[0].nameAddr.Addr.sipURI.Host)) && knownHost(p.resolver.hostIPs, stAddr(rawMessage.From)) ==>
+//@        ((len(poproutes) == len(old(poproutes)) + 1) == (knownIp(p.resolver.hostIPs, old(asRef(rawMessage.Message.headers[firstIdx(rawMessage.Message.headers, "Route")].value, "*Route").routeParams[0].nameAddr.Addr.sipURI.Host)) == knownIp(p.resolver.hostIPs, stAddr(rawMessage.From))))
+
+//@ func (*Proxy).getNextRequestHopByRoute
+//@   props C13 C03
+//@   requires msg != nil
+//@   ensures no-route: old(firstIdx(msg.headers, "Route")) < 0 ==> err != nil && poproutes == old(poproutes)
+//@   ensures keep: P.keepNextHopRoute ==> poproutes == old(poproutes)
+//@   ensures strip: !P.keepNextHopRoute && old(firstIdx(msg.headers, "Route")) >= 0 && isType(old(msg.headers[firstIdx(msg.headers, "Route")].value), "*Route")
+//@        && len(old(asRef(msg.headers[firstIdx(msg.headers, "Route")].value, "*Route").routeParams)) >= 1 ==> poproutes == old(poproutes) ++ seq1(msg)
+//@   ensures at-most-one: len(poproutes) <= len(old(poproutes)) + 1 && len(poproutes) >= len(old(poproutes))
+//@   ensures hop: old(firstIdx(msg.headers, "Route")) >= 0 && isType(old(msg.headers[firstIdx(msg.headers, "Route")].value), "*Route")
+//@        && len(old(asRef(msg.headers[firstIdx(msg.headers, "Route")].value, "*Route").routeParams)) >= 1
+//@        && old(asRef(msg.headers[firstIdx(msg.headers, "Route")].value, "*Route").routeParams[0].nameAddr.Addr.sipURI) != nil ==>
+//@        err == nil && host == old(asRef(msg.headers[firstIdx(msg.headers, "Route")].value, "*Route").routeParams[0].nameAddr.Addr.sipURI.Host)
+//@        && port == old(sipPort(asRef(msg.headers[firstIdx(msg.headers, "Route")].value, "*Route").routeParams[0].nameAddr.Addr.sipURI))
+//@        && transport == old(sipTransport(asRef(msg.headers[firstIdx(msg.headers, "Route")].value, "*Route").routeParams[0].nameAddr.Addr.sipURI))
+//@   ensures not-sip: old(firstIdx(msg.headers, "Route")) >= 0 && isType(old(msg.headers[firstIdx(msg.headers, "Route")].value), "*Route")
+//@        && len(old(asRef(msg.headers[firstIdx(msg.headers, "Route")].value, "*Route").routeParams)) >= 1
+//@        && old(asRef(msg.headers[firstIdx(msg.headers, "Route")].value, "*Route").routeParams[0].nameAddr.Addr.sipURI) == nil ==> err != nil
